@@ -1,19 +1,23 @@
 ------------------------------- MODULE Faults -------------------------------
 (* C05 - running compiled code never panics into the host.
 
-   REFERENCE part: the table FAULT CLASS x SYNTACTIC SITUATION x FORM -> OUTCOME CLASS that the property
-   demands (Run returns nil / *PanicError / ctx error / Stop error, never a host panic; a fault is a Go
-   run-time panic, so a recover() in the situation recovers it and Run returns nil).
+   REFERENCE part: the grid FAULT x SYNTACTIC SITUATION (incl. multi-step panic/recover sequences) x FORM x
+   RUN OPTIONS, and for each cell the outcome class the Go specification and the documentation of Run / Stop
+   give (Run returns nil / *PanicError / ctx error / Stop error, never a host panic; a fault is a Go run-time
+   panic, so a recover() in the situation recovers it and Run returns nil; Stop is not recoverable).  The case
+   is described by its script of panic-relevant events and evaluated with the ideal conversion.  Also: the
+   grid ODD VALUE x TEMPLATE CONTEXT x STATIC TYPE of the show instruction (never a host panic).
 
-   IMPLEMENTATION-SHAPED part: (a) `Raised`: for every fault class, the VM instruction under which the
-   fault surfaces and the class of Go panic value that reaches runRecoverable (transcribed from
-   internal/runtime/run.go + the Go run time / reflect messages of the toolchain in use);
-   (b) `Convert`: convertPanic's switch (internal/runtime/errors.go) as a table (op, panic value class)
-   -> PanicError | fatal; (c) the small machine Raise -> Convert -> Unwind/Recover -> Return of
-   runFunc/Run, including the nested machine of a Scriggo function called back from native code
-   (callable.Value) and the renderer restored by nextCall.  TLC model-checks (c) against the reference
-   over the whole grid; the holes it exhibits are diagnostic (model_counterexample), the verdict comes
-   from the real code (Trace_Faults.tla). *)
+   IMPLEMENTATION-SHAPED part: (a) the table: for every fault, the VM instruction under which it surfaces and
+   the class of Go panic value that reaches runRecoverable (transcribed from internal/runtime/run.go + the
+   messages of the Go toolchain in use); (b) `Convert`: convertPanic's switch (internal/runtime/errors.go) as a
+   table (op, panic value class) -> stop | PanicError | out | fatal; (c) the machine NextEvent -> ConvertStep ->
+   End of runFunc/Run with the close(stop) bookkeeping of a cancelable context, and the nested machine of a
+   Scriggo function called back from native code (callable.Value); (d) the field filter of the struct case of
+   showInJS/showInJSON.  The bookkeeping of the panic chain in nextCall is NOT transcribed here (PanicFlow.tla,
+   C12): the script semantics assumes deferred calls and recover() work as in Go.  TLC model-checks (c) against
+   the reference over the whole grid; the holes it exhibits are diagnostic (model_counterexample), the verdict
+   comes from the real code (Trace_Faults.tla). *)
 EXTENDS Integers, Sequences, FiniteSets
 
 F(n, c, op, pv, nested, st, sh, br, dc) ==
@@ -23,6 +27,7 @@ F(n, c, op, pv, nested, st, sh, br, dc) ==
    "recovers"), has a statement form, has a showable expression form, the statement has a block, needs a
    package-level declaration.  For the nested (callback) faults op/pv are those of the INNER machine. *)
 FaultNames == {
+  "stop_native", "stop_in_callback", "stop_after_recovered_panic",
   "divassign_int", "remassign_int", "divconst_int", "divconst_uint8", "nilptr_load", "nilptr_store",
   "nilptr_field_load", "nilptr_field_store", "nilptr_array_index", "nilptr_array_store", "nilptr_array_slice", "nilptr_array_range",
   "nilptr_native_field", "nilptr_native_field_store", "nilptr_native_method", "nilifc_method", "nilfunc_call", "nilfunc_call_result",
@@ -53,13 +58,13 @@ FaultByName(n) ==
     [] n = "divconst_int" -> F("divconst_int", "div-zero", "OpDivInt", "rt:divide", "no", TRUE, TRUE, FALSE, FALSE)
     [] n = "divconst_uint8" -> F("divconst_uint8", "div-zero", "OpDiv", "rt:divide", "no", TRUE, TRUE, FALSE, FALSE)
     [] n = "nilptr_load" -> F("nilptr_load", "nil-deref", "OpMove", "scriggo:runtimeError", "no", TRUE, TRUE, FALSE, FALSE)
-    [] n = "nilptr_store" -> F("nilptr_store", "nil-deref", "-OpTypify", "err:reflect-ValueError", "no", TRUE, FALSE, FALSE, FALSE)
+    [] n = "nilptr_store" -> F("nilptr_store", "nil-deref", "-OpTypify", "scriggo:runtimeError", "no", TRUE, FALSE, FALSE, FALSE)
     [] n = "nilptr_field_load" -> F("nilptr_field_load", "nil-deref", "OpField", "scriggo:runtimeError", "no", TRUE, TRUE, FALSE, FALSE)
     [] n = "nilptr_field_store" -> F("nilptr_field_store", "nil-deref", "-OpSetField", "scriggo:runtimeError", "no", TRUE, FALSE, FALSE, FALSE)
     [] n = "nilptr_array_index" -> F("nilptr_array_index", "nil-deref", "OpMove", "scriggo:runtimeError", "no", TRUE, TRUE, FALSE, FALSE)
     [] n = "nilptr_array_store" -> F("nilptr_array_store", "nil-deref", "OpMove", "scriggo:runtimeError", "no", TRUE, FALSE, FALSE, FALSE)
     [] n = "nilptr_array_slice" -> F("nilptr_array_slice", "nil-deref", "OpMove", "scriggo:runtimeError", "no", TRUE, TRUE, FALSE, FALSE)
-    [] n = "nilptr_array_range" -> F("nilptr_array_range", "nil-deref", "OpRange", "err:reflect-ValueError", "no", TRUE, FALSE, TRUE, FALSE)
+    [] n = "nilptr_array_range" -> F("nilptr_array_range", "nil-deref", "OpRange", "scriggo:runtimeError", "no", TRUE, FALSE, TRUE, FALSE)
     [] n = "nilptr_native_field" -> F("nilptr_native_field", "nil-deref", "OpField", "scriggo:runtimeError", "no", TRUE, TRUE, FALSE, FALSE)
     [] n = "nilptr_native_field_store" -> F("nilptr_native_field_store", "nil-deref", "-OpSetField", "scriggo:runtimeError", "no", TRUE, FALSE, FALSE, FALSE)
     [] n = "nilptr_native_method" -> F("nilptr_native_method", "native-runtime-error", "OpCallNative", "rt:value-method-nil-ptr", "no", TRUE, TRUE, FALSE, FALSE)
@@ -152,6 +157,9 @@ FaultByName(n) ==
     [] n = "native_callback_fault" -> F("native_callback_fault", "native-callback", "OpDivInt", "rt:divide", "panics", TRUE, FALSE, TRUE, FALSE)
     [] n = "native_callback_recovered" -> F("native_callback_recovered", "native-callback", "OpDivInt", "rt:divide", "recovers", TRUE, FALSE, TRUE, FALSE)
     [] n = "native_variadic_panic" -> F("native_variadic_panic", "native-panic", "OpCallNative", "val:string", "no", TRUE, FALSE, FALSE, FALSE)
+    [] n = "stop_native" -> F("stop_native", "stop", "OpCallNative", "scriggo:stopError", "no", TRUE, TRUE, FALSE, FALSE)
+    [] n = "stop_in_callback" -> F("stop_in_callback", "stop", "OpCallNative", "scriggo:stopError", "panics", TRUE, FALSE, TRUE, FALSE)
+    [] n = "stop_after_recovered_panic" -> F("stop_after_recovered_panic", "stop", "OpCallNative", "scriggo:stopError", "no", TRUE, FALSE, TRUE, FALSE)
     [] n = "nofault" -> F("nofault", "none", "none", "none", "no", TRUE, TRUE, FALSE, FALSE)
     [] n = "show_unshowable_chan" -> F("show_unshowable_chan", "unshowable", "OpShow", "scriggo:outError", "no", FALSE, TRUE, FALSE, FALSE)
     [] n = "show_unshowable_func" -> F("show_unshowable_func", "unshowable", "OpShow", "scriggo:outError", "no", FALSE, TRUE, FALSE, FALSE)
@@ -178,38 +186,66 @@ FaultByName(n) ==
     [] n = "rem_uint32" -> F("rem_uint32", "div-zero", "OpRem", "rt:divide", "no", TRUE, TRUE, FALSE, FALSE)
     [] n = "div_uint64" -> F("div_uint64", "div-zero", "OpDiv", "rt:divide", "no", TRUE, TRUE, FALSE, FALSE)
     [] n = "rem_uint64" -> F("rem_uint64", "div-zero", "OpRem", "rt:divide", "no", TRUE, TRUE, FALSE, FALSE)
-    [] n = "recursion_1000" -> F("recursion_1000", "recursion", "-OpSubInt", "rt:index", "no", TRUE, FALSE, FALSE, TRUE)
+    [] n = "recursion_1000" -> F("recursion_1000", "recursion", "none", "none", "no", TRUE, FALSE, FALSE, TRUE)
     [] n = "recursion_1000_result" -> F("recursion_1000_result", "recursion", "none", "none", "no", TRUE, FALSE, FALSE, TRUE)
 
 Rows == {FaultByName(n) : n \in FaultNames}
 
-(* ------------------------------------------------------------------ situations and forms *)
-ProgramSituations == {"top", "callee", "callee_args", "deferred", "deferred_named", "closure", "funcvar", "funcvar_lit"}
-TemplateSituations == {"tmpl_show", "tmpl_show_attr", "tmpl_stmt", "tmpl_block", "tmpl_macro", "tmpl_macro_block"}
+(* ------------------------------------------------------------------ situations, forms, run options *)
+SeqSituations == {"seq_a", "seq_b", "seq_c", "seq_d"}
+TmplSeqSituations == {"tmpl_seq_a", "tmpl_seq_b", "tmpl_seq_c", "tmpl_seq_d"}
+ProgramSituations == {"top", "callee", "callee_args", "deferred", "deferred_named", "closure", "funcvar", "funcvar_lit"} \cup SeqSituations
+TemplateSituations == {"tmpl_show", "tmpl_show_attr", "tmpl_stmt", "tmpl_block", "tmpl_macro", "tmpl_macro_block"} \cup TmplSeqSituations
 Situations == ProgramSituations \cup TemplateSituations
-\* the six syntactic situations of the property family
+(* The multi-step sequences (programs: functions main / inner; templates: function literals in a {%% %%} block):
+   a: the fault is raised in main; while it is in flight a deferred call calls inner(), which raises and recovers an
+      unrelated panic "B"; an earlier deferred call of main then recovers (form "recover").
+   b: main panics with "A"; a deferred call calls inner(), in which the fault is raised and recovered; then as in a.
+   c: main panics with "A"; a deferred call raises the fault itself (it replaces "A"); then as in a.
+   d: main panics with "A"; a deferred call recovers "A" and then raises the fault; then as in a. *)
+SeqKind(s) == CASE s \in {"seq_a", "tmpl_seq_a"} -> "a" [] s \in {"seq_b", "tmpl_seq_b"} -> "b"
+                [] s \in {"seq_c", "tmpl_seq_c"} -> "c" [] s \in {"seq_d", "tmpl_seq_d"} -> "d" [] OTHER -> "-"
+\* the syntactic situations of the property family (the six of DESIGN 7/C05 + the multi-step sequences)
 SituationClass(s) ==
   CASE s = "top" -> "top-level"
     [] s \in {"callee", "callee_args"} -> "callee"
     [] s \in {"deferred", "deferred_named"} -> "deferred-call"
     [] s = "closure" -> "closure"
     [] s \in {"funcvar", "funcvar_lit"} -> "function-value"
+    [] s \in SeqSituations \cup TmplSeqSituations -> "multi-step"
     [] s \in TemplateSituations -> "template"
 Forms == {"plain", "recover", "recover_outer"}
 Recovers(form) == form \in {"recover", "recover_outer"}
+\* run options: no context / a cancelable context that is never canceled (runFunc then starts its watcher goroutine)
+Opts == {"none", "cancelable"}
 
 \* which combinations have a concretisation (must agree with harness/cmd/c05: a disagreement is reported by
 \* the driver as "noconcretisation" and stops the check as a machinery error)
 Applicable(f, s, form) ==
-  IF s \in ProgramSituations THEN f.stmt /\ (s = "top" => form # "recover_outer")
+  IF s \in SeqSituations THEN f.stmt /\ form # "recover_outer"
+  ELSE IF s \in ProgramSituations THEN f.stmt /\ (s = "top" => form # "recover_outer")
   ELSE /\ ~f.decl
        /\ CASE s \in {"tmpl_show", "tmpl_show_attr"} -> f.show /\ form = "plain"
             [] s = "tmpl_stmt" -> f.stmt /\ ~f.braces /\ form = "plain"
-            [] s \in {"tmpl_block", "tmpl_macro_block"} -> f.stmt /\ form \in {"plain", "recover"}
+            [] s \in {"tmpl_block", "tmpl_macro_block"} \cup TmplSeqSituations -> f.stmt /\ form \in {"plain", "recover"}
             [] s = "tmpl_macro" -> form = "plain" /\ (f.show \/ (f.stmt /\ ~f.braces))
 
-Grid == {c \in [fault : FaultNames, situation : Situations, form : Forms] :
+Grid == {c \in [fault : FaultNames, situation : Situations, form : Forms, opt : Opts] :
             Applicable(FaultByName(c.fault), c.situation, c.form)}
+
+(* ------------------------------------------------------------------ the script of a case *)
+\* What happens in a case, as the sequence of its panic-relevant events: "fault" (the case's fault is raised, if
+\* it raises anything), "explicit" (panic("A") / panic("B")), "recover" (a deferred call calls recover()).
+\* local = the panic is raised in a nested call that has its own deferred recover().
+Ev(k, local) == [k |-> k, local |-> local]
+Script(c) ==
+  LET rec == IF Recovers(c.form) THEN <<Ev("recover", FALSE)>> ELSE <<>>
+      k == SeqKind(c.situation) IN
+  CASE k = "a" -> <<Ev("fault", FALSE), Ev("explicit", TRUE)>> \o rec
+    [] k = "b" -> <<Ev("explicit", FALSE), Ev("fault", TRUE)>> \o rec
+    [] k = "c" -> <<Ev("explicit", FALSE), Ev("fault", FALSE)>> \o rec
+    [] k = "d" -> <<Ev("explicit", FALSE), Ev("recover", FALSE), Ev("fault", FALSE)>> \o rec
+    [] OTHER -> <<Ev("fault", FALSE)>> \o rec
 
 (* ------------------------------------------------------------------ REFERENCE *)
 \* Faults after which gc does not panic at all (make(map, n) ignores a negative or huge hint; finite
@@ -218,23 +254,18 @@ NoPanicFaults == {"make_map_neg", "make_map_huge", "recursion_1000", "recursion_
                   "native_callback_recovered", "show_nil_any", "show_nil_error"}
 \* Values that cannot be shown: reported by an error (the statement does not say which class).
 ErrorFaults == {"show_unshowable_chan", "show_unshowable_func", "show_unshowable_nested"}
-RefClass(n) == IF n \in NoPanicFaults THEN "nopanic" ELSE IF n \in ErrorFaults THEN "error" ELSE "panic"
+\* The run is ended by env.Stop(err): Run returns err, deferred calls do not run (native.Env documentation).
+StopFaults == {"stop_native", "stop_in_callback", "stop_after_recovered_panic"}
+RefClass(n) == IF n \in NoPanicFaults THEN "nopanic" ELSE IF n \in ErrorFaults THEN "error"
+               ELSE IF n \in StopFaults THEN "stop" ELSE "panic"
 
-Outcomes == {"nil", "panicerror", "ctxerr", "stoperr", "othererror", "hostpanic"}
+Outcomes == {"nil", "panicerror", "ctxerr", "stoperr", "othererror", "hostpanic", "processdeath"}
 \* The property: what may come out of Run.  "othererror" is an error value that is neither a *PanicError nor
 \* the context's / Stop's error (e.g. "cannot show value of type chan int", a writer's error): the statement
 \* lists the error classes but also says faults are "reported as errors, never as host panics"; the reading
 \* chosen is the one under which today's intended behaviour passes - any returned error is fine, a panic
-\* leaving Run is not (none of the generated cases calls Fatal or passes an invalid variable value).
-PropertyOutcomes == Outcomes \ {"hostpanic"}
-\* what the reference expects for a case (used for diagnostics; the verdict predicate is OutcomeOk)
-RefOutcomes(c) ==
-  LET k == RefClass(c.fault) IN
-  IF k = "nopanic" \/ Recovers(c.form) THEN {"nil"}
-  ELSE IF k = "error" THEN {"panicerror", "othererror"}
-  ELSE {"panicerror"}
-\* property-level predicate on an observed outcome
-OutcomeOk(c, outcome) == outcome \in PropertyOutcomes /\ (Recovers(c.form) => outcome = "nil")
+\* leaving Run (or the death of the process) is not (no generated case calls Fatal or passes an invalid variable value).
+PropertyOutcomes == Outcomes \ {"hostpanic", "processdeath"}
 
 (* ------------------------------------------------------------------ IMPLEMENTATION-SHAPED: convertPanic *)
 \* an instruction with a constant operand has the negated opcode; convertPanic lists some of them
@@ -242,112 +273,179 @@ Neg(o) == CASE o = "OpIndex" -> {"OpIndex", "-OpIndex"} [] o = "OpIndexRef" -> {
             [] o = "OpSetSlice" -> {"OpSetSlice", "-OpSetSlice"} [] o = "OpIf" -> {"OpIf", "-OpIf"}
             [] o = "OpIndexString" -> {"OpIndexString", "-OpIndexString"} [] o = "OpMakeChan" -> {"OpMakeChan", "-OpMakeChan"}
             [] o = "OpSend" -> {"OpSend", "-OpSend"} [] o = "OpSetMap" -> {"OpSetMap", "-OpSetMap"}
+            [] o = "OpMapIndex" -> {"OpMapIndex", "-OpMapIndex"} [] o = "OpMapIndexAny" -> {"OpMapIndexAny", "-OpMapIndexAny"}
 ScriggoRuntimeError == "scriggo:runtimeError"        \* the VM's own runtimeError type (nil pointer, type assertion)
 \* panic values that implement runtime.Error and come from the Go run time (or from host code)
 GoRuntimeErrors == {"rt:divide", "rt:index", "rt:slice-bounds", "rt:close-closed", "rt:close-nil", "rt:send-closed",
    "rt:nil-map", "rt:unhashable-runtime-spelling", "rt:unhashable-maps-spelling", "rt:allocation-size", "rt:makechan-size",
    "rt:uncomparable", "rt:value-method-nil-ptr", "rt:panic-nil", "rt:host-defined", "rt:nil-deref"}
 IsGoRuntimeError(pv) == pv \in GoRuntimeErrors
-PanicValues == GoRuntimeErrors \cup {"none", ScriggoRuntimeError, "scriggo:fatalError", "scriggo:outError", "err:reflect-ValueError",
-   "str:reflect-index", "str:reflect-slice3", "str:makeslice-neg-len", "str:makeslice-neg-cap", "str:makeslice-len-gt-cap",
-   "str:makechan-neg", "str:convert-length", "str:grow-overflow", "str:append-overflow", "val:error", "val:string", "val:int"}
+Unhashable == {"rt:unhashable-runtime-spelling", "rt:unhashable-maps-spelling"}      \* errUnhashable accepts both spellings
+PanicValues == GoRuntimeErrors \cup {"none", ScriggoRuntimeError, "scriggo:fatalError", "scriggo:outError", "scriggo:stopError",
+   "err:reflect-ValueError", "str:reflect-index", "str:reflect-slice3", "str:makeslice-neg-len", "str:makeslice-neg-cap",
+   "str:makeslice-len-gt-cap", "str:makechan-neg", "str:convert-length", "str:grow-overflow", "str:append-overflow",
+   "val:error", "val:string", "val:int"}
 
-\* convertPanic(msg) with vm.fn.Body[vm.pc-1].Op = op: "PanicError" (vm.newPanic), "out" (a PanicError that
-\* wraps an outError; Run returns the wrapped error), "fatal" (returned as / wrapped in *fatalError: Run panics).
+\* convertPanic(msg) with vm.fn.Body[vm.pc-1].Op = op: "stop" (the stopError is returned as it is), "PanicError"
+\* (vm.newPanic), "out" (a PanicError that wraps an outError; Run returns the wrapped error), "fatal" (returned as /
+\* wrapped in *fatalError: Run panics).
 Convert(op, pv) ==
-  IF pv = "scriggo:outError" THEN "out"                                           \* case outError
+  IF pv = "scriggo:stopError" THEN "stop"                                         \* case stopError
+  ELSE IF pv = "scriggo:outError" THEN "out"                                      \* case outError
   ELSE IF op \in Neg("OpIndex") \cup Neg("OpIndexRef") \cup Neg("OpSetSlice") \cup {"OpAddr"} /\ pv \in {"rt:index", "str:reflect-index"} THEN "PanicError"
-  ELSE IF op = "OpAppendSlice" /\ pv = "str:append-overflow" THEN "PanicError"   \* "reflect.Append: slice overflow" only
-  ELSE IF op \in {"OpCallNative", "OpCallIndirect"} /\ pv = "scriggo:fatalError" THEN "fatal"
-  ELSE IF op \in {"OpCallNative", "OpCallIndirect"} /\ pv # ScriggoRuntimeError /\ ~IsGoRuntimeError(pv) THEN "PanicError"   \* default:
+  ELSE IF op = "OpAppendSlice" /\ pv \in {"str:append-overflow", "str:grow-overflow"} THEN "PanicError"
+  ELSE IF op \in {"OpCallNative", "OpCallIndirect", "OpReturn"} /\ pv = "scriggo:fatalError" THEN "fatal"
+  ELSE IF op \in {"OpCallNative", "OpCallIndirect", "OpReturn"} /\ pv # ScriggoRuntimeError /\ ~IsGoRuntimeError(pv) THEN "PanicError"   \* default:
   ELSE IF op = "OpClose" /\ pv \in {"rt:close-closed", "rt:close-nil"} THEN "PanicError"
   ELSE IF op = "OpConvert" /\ pv = "str:convert-length" THEN "PanicError"
-  ELSE IF op = "OpDelete" /\ pv = "rt:unhashable-maps-spelling" THEN "PanicError"   \* prefix "hash of unhashable type: "
+  ELSE IF op \in {"OpDelete"} \cup Neg("OpMapIndex") \cup Neg("OpMapIndexAny") /\ pv \in Unhashable THEN "PanicError"
   ELSE IF op \in {"OpDivInt", "OpDiv", "OpRemInt", "OpRem"} /\ pv = "rt:divide" THEN "PanicError"
   ELSE IF op \in Neg("OpIf") /\ pv = "rt:uncomparable" THEN "PanicError"
   ELSE IF op \in Neg("OpIndexString") /\ pv = "rt:index" THEN "PanicError"
-  ELSE IF op \in Neg("OpMakeChan") /\ pv = "str:makechan-neg" THEN "PanicError"
-  ELSE IF op = "OpMakeSlice" /\ pv \in {"str:makeslice-neg-len", "str:makeslice-neg-cap", "str:makeslice-len-gt-cap"} THEN "PanicError"
+  ELSE IF op \in Neg("OpMakeChan") /\ pv \in {"str:makechan-neg", "rt:makechan-size"} THEN "PanicError"
+  ELSE IF op = "OpMakeSlice" /\ pv \in {"str:makeslice-neg-len", "str:makeslice-neg-cap", "str:makeslice-len-gt-cap", "rt:allocation-size"} THEN "PanicError"
   ELSE IF op = "OpPanic" THEN "PanicError"
-  ELSE IF op \in Neg("OpSend") /\ pv = "rt:send-closed" THEN "PanicError"
-  ELSE IF op \in Neg("OpSetMap") /\ pv \in {"rt:nil-map", "rt:unhashable-runtime-spelling"} THEN "PanicError"
+  ELSE IF op \in Neg("OpSend") \cup {"OpSelect"} /\ pv = "rt:send-closed" THEN "PanicError"
+  ELSE IF op \in Neg("OpSetMap") /\ pv \in {"rt:nil-map"} \cup Unhashable THEN "PanicError"
   ELSE IF op \in {"OpSlice", "OpStringSlice"} /\ pv \in {"rt:slice-bounds", "str:reflect-slice3"} THEN "PanicError"
   ELSE IF pv = ScriggoRuntimeError THEN "PanicError"                              \* if _, ok := msg.(runtimeError)
   ELSE "fatal"                                                                    \* return &fatalError{msg: msg}
 
-(* ------------------------------------------------------------------ IMPLEMENTATION-SHAPED: the run machine *)
-\* nextCall restores vm.renderer from the call frame; frames pushed by OpCallFunc / OpCallIndirect carry no
-\* renderer, and nextCall is the return path of a call that had deferred calls (run.go OpCallFunc/OpCallIndirect,
-\* vm.go nextCall).  In the generated templates that is exactly the recover form (a function literal with a
-\* deferred recover, called in a {%% %%} block); the text after the block is then written through a nil renderer.
-RendererLost(c) == c.situation \in TemplateSituations /\ c.form = "recover"
+\* what the Go specification demands of the same values: every panic of the interpreted code (also one that crosses
+\* native code, also one raised by host code) is an ordinary panic; Stop and writer/show errors as documented
+IdealConvert(op, pv) == IF pv = "scriggo:stopError" THEN "stop" ELSE IF pv = "scriggo:outError" THEN "out" ELSE "PanicError"
+Conv(ideal, op, pv) == IF ideal THEN IdealConvert(op, pv) ELSE Convert(op, pv)
 
-VARIABLES cs, phase, op, pv, recovering, result
-vars == <<cs, phase, op, pv, recovering, result>>
+\* The Go panic that reaches the machine running the case for its fault: <<op, pv>>, or <<"none", "none">>.
+\* callable.Value: a Scriggo function called back from native code runs in its own VM (nvm.runFunc); a *PanicError it
+\* returns is turned into a *fatalError, any other error is re-raised as it is, under the caller's OpCallNative.
+FaultRaise(f, ideal) ==
+  IF f.op = "none" THEN <<"none", "none">>
+  ELSE IF f.nested = "no" THEN <<f.op, f.pv>>
+  ELSE LET r == Conv(ideal, f.op, f.pv) IN
+       IF r = "stop" THEN <<"OpCallNative", "scriggo:stopError">>
+       ELSE IF r = "PanicError" /\ f.nested = "recovers" THEN <<"none", "none">>
+       ELSE IF ideal THEN <<"OpCallNative", "val:string">>                       \* the panic of the callback, propagated
+       ELSE <<"OpCallNative", "scriggo:fatalError">>
+EventRaise(c, ev, ideal) ==
+  IF ev.k = "fault" THEN FaultRaise(FaultByName(c.fault), ideal)
+  ELSE IF ev.k = "explicit" THEN <<"OpPanic", "val:string">> ELSE <<"none", "none">>
+
+(* ------------------------------------------------------------------ the semantics of a script *)
+\* The first "fatal" ends the run with a host panic, the first "stop" with the Stop error; otherwise panics that are
+\* not recovered locally are pending until a deferred call calls recover(); at the end a pending panic is returned
+\* as *PanicError (or as the writer/show error it wraps).  acc = [pending, out, res].
+Acc0 == [pending |-> 0, out |-> FALSE, res |-> ""]
+StepAcc(c, ev, acc, ideal) ==
+  IF acc.res # "" THEN acc
+  ELSE IF ev.k = "recover" THEN [acc EXCEPT !.pending = 0, !.out = FALSE]
+  ELSE LET r == EventRaise(c, ev, ideal) IN
+       IF r[1] = "none" THEN acc
+       ELSE LET k == Conv(ideal, r[1], r[2]) IN
+            IF k = "fatal" THEN [acc EXCEPT !.res = "hostpanic"]
+            ELSE IF k = "stop" THEN [acc EXCEPT !.res = "stoperr"]
+            ELSE IF ev.local THEN acc
+            ELSE [acc EXCEPT !.pending = @ + 1, !.out = (k = "out")]
+Final(acc) == IF acc.res # "" THEN acc.res ELSE IF acc.pending = 0 THEN "nil" ELSE IF acc.out THEN "othererror" ELSE "panicerror"
+RECURSIVE EvalFrom(_, _, _, _)
+EvalFrom(c, i, acc, ideal) == IF i > Len(Script(c)) THEN Final(acc) ELSE EvalFrom(c, i + 1, StepAcc(c, Script(c)[i], acc, ideal), ideal)
+
+\* REFERENCE: the outcome the Go specification + the documentation of Run / Stop give for the case
+RefOutcome(c) == EvalFrom(c, 1, Acc0, TRUE)
+RefOutcomes(c) == IF RefOutcome(c) = "othererror" THEN {"othererror", "panicerror"} ELSE {RefOutcome(c)}
+\* property-level predicate on an observed outcome: Run did not panic; and where the Go specification says the
+\* panic is recovered (reference outcome nil), it was
+OutcomeOk(c, outcome) == outcome \in PropertyOutcomes /\ (Recovers(c.form) /\ RefOutcome(c) = "nil" => outcome = "nil")
+\* IMPLEMENTATION-SHAPED: the same script through convertPanic as it is written
+ModelOutcome(c) == EvalFrom(c, 1, Acc0, FALSE)
+
+(* ------------------------------------------------------------------ IMPLEMENTATION-SHAPED: the run machine *)
+\* runFunc / runRecoverable / Run, one action per step: the next event of the script raises (or not), convertPanic
+\* classifies, runFunc either returns at once (stopError, fatalError: `if !ok { close(stop); return err }`) or pushes the
+\* PanicError and lets the deferred calls run; at the end `close(stop)` and the pending panic.  `closes` counts the
+\* close(stop) calls (stop exists only with a cancelable context): closing twice is a Go panic that leaves Run.
+VARIABLES cs, pc, acc, raised, phase, closes, result
+vars == <<cs, pc, acc, raised, phase, closes, result>>
 
 FInit == /\ cs \in Grid
-         /\ phase = "running" /\ op = "none" /\ pv = "none" /\ result = "none"
-         /\ recovering = Recovers(cs.form)
+         /\ pc = 1 /\ acc = Acc0 /\ raised = <<"none", "none">> /\ phase = "running" /\ closes = 0 /\ result = "none"
 
-\* the faulting instruction raises a Go panic (or there is no fault)
-Raise == /\ phase = "running"
-         /\ LET f == FaultByName(cs.fault) IN
-            IF f.op = "none" THEN phase' = "returning" /\ UNCHANGED <<op, pv>>
-            ELSE /\ op' = f.op /\ pv' = f.pv
-                 /\ phase' = IF f.nested = "no" THEN "raised" ELSE "inner-raised"
-         /\ UNCHANGED <<cs, recovering, result>>
-
-\* callable.Value: the Scriggo function runs in its own VM (nvm.runFunc); a *PanicError it returns is turned
-\* into a *fatalError and re-raised in the calling machine, under its OpCallNative
-InnerRun == /\ phase = "inner-raised"
-            /\ LET f == FaultByName(cs.fault) r == Convert(op, pv) IN
-               IF r = "PanicError" /\ f.nested = "recovers"
-               THEN phase' = "returning" /\ UNCHANGED <<op, pv>>
-               ELSE phase' = "raised" /\ op' = "OpCallNative" /\ pv' = "scriggo:fatalError"
-            /\ UNCHANGED <<cs, recovering, result>>
-
-\* runRecoverable: recover() + convertPanic
+HasStop == cs.opt = "cancelable"
+\* the next event: a recover(), nothing, or a Go panic reaching runRecoverable
+NextEvent == /\ phase = "running" /\ pc <= Len(Script(cs))
+             /\ LET ev == Script(cs)[pc] IN
+                IF ev.k = "recover" THEN /\ acc' = [acc EXCEPT !.pending = 0, !.out = FALSE]
+                                         /\ pc' = pc + 1 /\ UNCHANGED <<raised, phase>>
+                ELSE LET r == EventRaise(cs, ev, FALSE) IN
+                     IF r[1] = "none" THEN pc' = pc + 1 /\ UNCHANGED <<acc, raised, phase>>
+                     ELSE raised' = r /\ phase' = "raised" /\ UNCHANGED <<acc, pc>>
+             /\ UNCHANGED <<cs, closes, result>>
+\* runRecoverable: recover() + convertPanic; runFunc: a non-PanicError error returns at once
 ConvertStep == /\ phase = "raised"
-               /\ LET r == Convert(op, pv) IN
-                  IF r = "fatal" THEN phase' = "done" /\ result' = "hostpanic"          \* Run: panic(e.msg); no deferred call runs
-                  ELSE phase' = (IF r = "out" THEN "unwinding-out" ELSE "unwinding") /\ UNCHANGED result
-               /\ UNCHANGED <<cs, op, pv, recovering>>
-
-\* runFunc loop: the PanicError is pushed, deferred calls run; one that calls recover() stops the panic
-Unwind == /\ phase \in {"unwinding", "unwinding-out"}
-          /\ IF recovering THEN phase' = "returning" /\ UNCHANGED result
-             ELSE phase' = "done" /\ result' = (IF phase = "unwinding-out" THEN "othererror" ELSE "panicerror")
-          /\ UNCHANGED <<cs, op, pv, recovering>>
-
-\* the function returns to the code after the call
-Return == /\ phase = "returning"
-          /\ IF RendererLost(cs) /\ recovering
-             THEN \* Text/Show through the nil renderer: a Go nil dereference under OpText, outside any recover
-                  phase' = "raised" /\ op' = "OpText" /\ pv' = "rt:nil-deref" /\ recovering' = FALSE /\ UNCHANGED result
-             ELSE phase' = "done" /\ result' = "nil" /\ UNCHANGED <<op, pv, recovering>>
-          /\ UNCHANGED cs
-
+               /\ LET k == Convert(raised[1], raised[2]) IN
+                  IF k \in {"fatal", "stop"}
+                  THEN /\ phase' = "done" /\ result' = (IF k = "fatal" THEN "hostpanic" ELSE "stoperr")
+                       /\ closes' = closes + (IF HasStop THEN 1 ELSE 0)              \* if stop != nil { close(stop) }; return err
+                       /\ UNCHANGED <<acc, pc>>
+                  ELSE /\ acc' = (IF Script(cs)[pc].local THEN acc ELSE [acc EXCEPT !.pending = @ + 1, !.out = (k = "out")])
+                       /\ pc' = pc + 1 /\ phase' = "running" /\ UNCHANGED <<closes, result>>
+               /\ UNCHANGED <<cs, raised>>
+\* the function returned (or all deferred calls of a panicking main have run)
+End == /\ phase = "running" /\ pc > Len(Script(cs))
+       /\ phase' = "done" /\ result' = Final(acc)
+       /\ closes' = closes + (IF HasStop THEN 1 ELSE 0)                             \* if stop != nil { close(stop) ... }
+       /\ UNCHANGED <<cs, pc, acc, raised>>
 Finished == phase = "done" /\ UNCHANGED vars          \* stutter, so that TLC's deadlock check means "got stuck before done"
-FNext == Raise \/ InnerRun \/ ConvertStep \/ Unwind \/ Return \/ Finished
-
-\* the same machine as a function (used by Trace_Faults for the drift diagnostic; MC_Faults checks they agree)
-ModelOutcomeWith(c, rendererLost) ==
-  LET f == FaultByName(c.fault)
-      after == IF rendererLost THEN "hostpanic" ELSE "nil"       \* Convert("OpText", "rt:nil-deref") = "fatal"
-      outer(o, p) == LET r == Convert(o, p) IN
-                     IF r = "fatal" THEN "hostpanic"
-                     ELSE IF Recovers(c.form) THEN after
-                     ELSE IF r = "out" THEN "othererror" ELSE "panicerror"
-  IN IF f.op = "none" THEN after
-     ELSE IF f.nested = "no" THEN outer(f.op, f.pv)
-     ELSE IF Convert(f.op, f.pv) = "PanicError" /\ f.nested = "recovers" THEN after
-     ELSE outer("OpCallNative", "scriggo:fatalError")
-ModelOutcome(c) == ModelOutcomeWith(c, RendererLost(c))
+FNext == NextEvent \/ ConvertStep \/ End \/ Finished
 
 (* ------------------------------------------------------------------ what MC_Faults checks *)
-TypeOK == /\ cs \in Grid /\ result \in Outcomes \cup {"none"} /\ recovering \in BOOLEAN
-          /\ phase \in {"running", "inner-raised", "raised", "unwinding", "unwinding-out", "returning", "done"}
-ModelMeetsReference == phase = "done" => result \in RefOutcomes(cs)              \* fails at every hole
-ModelNeverHostPanic == result # "hostpanic"
+TypeOK == /\ cs \in Grid /\ result \in Outcomes \cup {"none"} /\ closes \in 0..2 /\ acc.pending \in 0..3
+          /\ phase \in {"running", "raised", "done"}
+ModelMeetsReference == phase = "done" => result \in RefOutcomes(cs)              \* fails at every hole of convertPanic
 FunctionalAgrees == phase = "done" => result = ModelOutcome(cs)
+StopClosedOnce == phase = "done" => closes = (IF HasStop THEN 1 ELSE 0)
+\* the reference never asks for a host panic, and asks for nil exactly when nothing is left pending
+ReferenceSane == RefOutcome(cs) \in PropertyOutcomes
+
+(* ------------------------------------------------------------------ odd shown values (kind "show") *)
+\* REFERENCE: showing any value in any template context either renders it or returns an error; Run never panics and
+\* the process does not die.  (These are values an embedder can pass for a declared global: none is an "invalid
+\* template variable value" in the sense of the documentation, which is about values not assignable to the variable.)
+ShowValues == {"embed_unexported", "embed_unexported_ptr", "embed_unexported_nilptr", "ptr_embed_unexported",
+   "slice_embed_unexported", "map_embed_unexported", "unexported_fields_only", "struct_chan_field", "struct_func_field",
+   "nil_ptr_time", "nil_ptr_value_stringer", "nil_ptr_ptr_stringer", "nil_ptr_struct", "ptr_ptr_nil", "chan", "nil_chan",
+   "func", "nil_func", "complex", "nil_map", "nil_slice", "map_int_key", "map_any_key", "map_struct_key", "slice_any_chan",
+   "slice_nil_ptr_stringer", "map_value_nil_ptr_time", "array_of_struct", "list_node", "error_nil_ptr", "zero_time",
+   "duration", "cyclic_ptr", "cyclic_map", "cyclic_slice"}
+\* a naive traversal of these does not terminate: the driver shows them in a child process (the Go run time kills a
+\* process whose stack overflows; that cannot be recovered)
+CyclicValues == {"cyclic_ptr", "cyclic_map", "cyclic_slice"}
+ScriptContexts == {"js", "json", "html.script", "html.ldjson", "js.macro", "json.for"}
+StringContexts == {"text", "html", "tag", "qattr", "uattr", "css", "cssstr", "jsstr", "jsonstr", "md", "tabcode",
+   "spacescode", "urlq", "urlquery", "urlset", "html.jsstr", "html.style"}
+ShowContexts == ScriptContexts \cup StringContexts
+Boxes == {"static", "any"}
+ShowGrid == [value : ShowValues, ctx : ShowContexts, box : Boxes]
+ShowOk(outcome) == outcome \in PropertyOutcomes
+ValueClass(v) == CASE v \in {"nil_ptr_time", "nil_ptr_value_stringer"} -> "nil-pointer-to-value-receiver-stringer"
+                   [] v \in CyclicValues -> "cyclic"
+                   [] v \in {"embed_unexported", "embed_unexported_ptr", "embed_unexported_nilptr", "ptr_embed_unexported",
+                             "slice_embed_unexported", "map_embed_unexported"} -> "embedded-unexported-struct"
+                   [] OTHER -> v
+CtxClass(x) == IF x \in ScriptContexts THEN "script" ELSE "string-like"
+
+\* IMPLEMENTATION-SHAPED: the struct case of showInJS / showInJSON visits the fields with PkgPath == "" and calls
+\* Interface() on them; reflect panics on a value obtained through a non-exported field (also an embedded one).
+Fld(name, exported, embedded) == [name |-> name, exported |-> exported, embedded |-> embedded]
+StructFields(v) == CASE v \in {"embed_unexported", "ptr_embed_unexported", "slice_embed_unexported", "map_embed_unexported"} ->
+                           {Fld("base", FALSE, TRUE), Fld("Name", TRUE, FALSE)}
+                     [] v \in {"embed_unexported_ptr", "embed_unexported_nilptr"} -> {Fld("base", FALSE, TRUE), Fld("Name", TRUE, FALSE)}
+                     [] v = "unexported_fields_only" -> {Fld("a", FALSE, FALSE), Fld("b", FALSE, FALSE)}
+                     [] v = "struct_chan_field" -> {Fld("A", TRUE, FALSE), Fld("C", TRUE, FALSE)}
+                     [] v = "struct_func_field" -> {Fld("F", TRUE, FALSE)}
+                     [] v = "array_of_struct" -> {Fld("A", TRUE, FALSE)}
+                     [] v = "list_node" -> {Fld("V", TRUE, FALSE), Fld("Next", TRUE, FALSE)}
+                     [] OTHER -> {}
+VisitedFields(v) == {f \in StructFields(v) : f.exported}                      \* if field := t.Field(i); field.PkgPath == ""
+StructWalkSafe == \A v \in ShowValues : \A f \in VisitedFields(v) : f.exported  \* Interface() is legal on every visited field
 =============================================================================
